@@ -140,6 +140,67 @@ def meanGrid (g : GridA) (axis : Nat) : Except Exc GridA :=
     | none => .error .keyError
     | some ms => .ok ⟨a, ms⟩
 
+/-! ### the axis argument: `axis = int(axis)`, negative values
+
+  numpy reads a negative axis from the last one (`-1` = the last axis).  `mean` drops the dimension name and the
+  map *by position* (`i != axis`), so since the repair it first counts the axis from the front:
+  `if -ndim <= axis < 0: axis += ndim`; anything else goes to numpy as it is (AxisError when out of range). -/
+
+/-- the position the repaired `mean` works with -/
+def normAxis (rank : Nat) (axis : Int) : Except Exc Nat :=
+  if 0 ≤ axis then .ok axis.toNat
+  else if -(rank : Int) ≤ axis then .ok (axis + rank).toNat
+  else .error .valueError          -- numpy AxisError
+
+/-- `mean(dataset, var, axis)` for the axis as the request spells it -/
+def meanAxis (a : Arr) (axis : Int) : Except Exc Arr :=
+  match normAxis a.shape.length axis with
+  | .error e => .error e
+  | .ok k => meanArr a k
+
+def meanGridAxis (g : GridA) (axis : Int) : Except Exc GridA :=
+  match normAxis g.array.shape.length axis with
+  | .error e => .error e
+  | .ok k => meanGrid g k
+
+/-- before the repair: numpy took the negative axis (shape and data of the axis counted from the last), the
+    comprehension `i != axis` dropped no name: every dimension name (and, on a grid, every map) stayed -/
+def meanAxisOld (a : Arr) (axis : Int) : Except Exc Arr :=
+  match normAxis a.shape.length axis with
+  | .error e => .error e
+  | .ok k =>
+    match meanArr a k with
+    | .error e => .error e
+    | .ok r => .ok (if axis < 0 then { r with dims := a.dims } else r)
+
+/-! ### `eval_function` on (nested) calls of `mean`
+
+  `eval_function(dataset, "mean(mean(v,k1),k2)", functions)`: the arguments are evaluated first (`map(parse, tokenize(args))`:
+  a token that matches FUNCTION is evaluated recursively, another token is looked up in the dataset, else read by
+  `ast.literal_eval`), then `functions[name](dataset, *args)`.  Here for the one function `mean` over an environment
+  `env` of array variables (what `reduce(operator.getitem, [dataset] + names)` finds): the first argument is a call or a
+  variable, the optional second a token that `literal_eval` reads as a decimal integer (`int(axis)`).  Outside this
+  fragment (an axis token that is no decimal integer: `1.5`, `0x1`, a variable) the model does not resolve the call
+  (`unspecified`). -/
+def evalMean (env : Str → Option Arr) : Arg → Except Exc Arr
+  | .tok s => match env s with
+    | some a => .ok a
+    | none => .error .unspecified            -- a literal / unknown name as the array: `mean` raises (not resolved which error)
+  | .call name [x] =>
+    if name = cs!"mean" then
+      match evalMean env x with
+      | .ok a => meanAxis a 0                 -- `axis=0` default
+      | .error e => .error e
+    else .error .keyError                     -- `functions[name]`
+  | .call name [x, .tok k] =>
+    if name = cs!"mean" then
+      match evalMean env x, parseIntChars k with
+      | .ok a, some axis => meanAxis a axis
+      | .error e, _ => .error e
+      | .ok _, none => .error .unspecified
+    else .error .keyError
+  | .call name _ => if name = cs!"mean" then .error .unspecified else .error .keyError
+
 /-! ### `bounds` -/
 
 inductive Axis where | x | y | z
